@@ -1561,15 +1561,20 @@ uint32_t group_hash(const MessageSpec& p1)
 }
 
 //-------------------------------------------------------------------------------------------------
-// true if both group definitions have the same member fields and the same nested groups
+// true if both group definitions have the same member fields (in the same order, with the same required flags) and the
+// same nested groups
 bool same_group_definition(const MessageSpec& p1, const MessageSpec& p2)
 {
    if (p1._fields.get_presence().size() != p2._fields.get_presence().size() || p1._groups.size() != p2._groups.size())
       return false;
    Presence::const_iterator i2(p2._fields.get_presence().begin());
    for (const auto& pp : p1._fields.get_presence())
-      if (pp._fnum != (i2++)->_fnum)
-         return false;
+   {
+      if (pp._fnum != i2->_fnum || pp._pos != i2->_pos
+         || pp._field_traits.has(FieldTrait::mandatory) != i2->_field_traits.has(FieldTrait::mandatory))
+            return false;
+      ++i2;
+   }
    GroupMap::const_iterator g2(p2._groups.begin());
    for (const auto& pp : p1._groups)
    {
